@@ -1980,3 +1980,690 @@ fn run_documented(p: &DocProbe) -> (String, String) {
     };
     (model, imp)
 }
+
+// ================================================================ recording
+struct Col {
+    rep: Report,
+    search: bool,
+    thorough: bool,
+}
+impl Col {
+    fn add(&mut self, key: &str, n: u64) {
+        *self.rep.histogram.entry(key.to_string()).or_insert(0) += n;
+    }
+    fn record(&mut self, stream: &str, req: &str, model: &str, imp: &str, nontrivial: bool, sig: &str) {
+        if self.search {
+            self.rep.evaluations += 1;
+            if model != imp && self.rep.failures.len() < 20 {
+                self.rep.failures.push((req.to_string(), describe_failure(imp)));
+            }
+        } else {
+            self.rep.case(stream, req, model, imp, nontrivial, sig);
+        }
+    }
+    fn case(&mut self, stream: &str, req: &str, row: &Row, out: &CaseOut, nontrivial: bool) {
+        if !out.called {
+            return;
+        }
+        self.add(&format!("row:{}", row.full()), 1);
+        self.add("strings-validated", out.strings);
+        if let Some(id) = out.known {
+            self.add(&format!("panic-known:{}", id), 1);
+        }
+        if out.inv.is_some() {
+            self.add("check_invariants-Err-after-setter", 1);
+        }
+        self.record(stream, req, &out.model, &out.imp, nontrivial, &format!("{}:{}", row.kind.tag(), out.class));
+    }
+}
+fn describe_failure(imp: &str) -> String {
+    if let Some(m) = imp.strip_prefix("PANIC:") {
+        format!("panics outside every listed class: {}", m)
+    } else if let Some(m) = imp.strip_prefix("INVALID-UTF8:") {
+        format!("returns a str that is not valid UTF-8 ({})", m)
+    } else if let Some(m) = imp.strip_prefix("INVARIANT:") {
+        format!("the parser produced a Url whose check_invariants() fails: {}", m)
+    } else if let Some(m) = imp.strip_prefix("ABORT:") {
+        format!("the process is killed ({})", m)
+    } else {
+        format!("outcome {} differs from the prediction", imp)
+    }
+}
+
+// ================================================================ streams
+fn rows_of(kinds: &[Kind]) -> Vec<&'static Row> {
+    rows().iter().filter(|r| kinds.contains(&r.kind)).collect()
+}
+/// the setter rows that are still run on inputs above 100 KB
+fn heavy_ok(r: &Row) -> bool {
+    matches!(r.name, "Url::set_path" | "Url::set_query" | "Url::set_fragment" | "quirks::set_href" | "quirks::set_pathname" | "Url::set_host" | "Url::set_username")
+}
+fn cap_bytes(cap: Cap, thorough: bool) -> usize {
+    match cap {
+        Cap::Full | Cap::Data => usize::MAX,
+        Cap::Idna => if thorough { 65536 } else { 16384 },
+        Cap::Puny => 4096,
+    }
+}
+
+/// all rows on one input; `ins` is the input part of the request line.  `level`: 0 = up to 1000 bytes
+/// (everything), 1 = up to ~64 KiB (reduced prefix / base / start lists), 2 = above (a handful of calls)
+fn feed_url_rows(col: &mut Col, stream: &str, ins: &str, inp: &[u8], level: u8, bases: &[Url], starts: &[Url]) {
+    let nontrivial = !inp.is_empty();
+    let prefixes: &[&str] = match level {
+        0 => &URL_PREFIXES,
+        1 => &URL_PREFIXES_BIG,
+        _ => &["", "http://h/", "a:/"],
+    };
+    let getters = rows_of(&[Kind::UrlGet]);
+    for pre in prefixes {
+        let mut full = pre.as_bytes().to_vec();
+        full.extend_from_slice(inp);
+        for row in rows_of(&[Kind::UrlStr]) {
+            let out = run_row(row, &full, None, None);
+            col.case(stream, &req_line(row, ins, pre, None), row, &out, nontrivial);
+        }
+        let text = String::from_utf8_lossy(&full);
+        if let Some(u) = parse_for_get(&text, None) {
+            for row in &getters {
+                let out = exec(row, &Ctx { bytes: b"", text: "", url: &u, small: 0 });
+                col.case(stream, &req_line(row, ins, pre, None), row, &out, nontrivial);
+            }
+        }
+    }
+    let nb = match level {
+        0 => bases.len(),
+        1 => 5.min(bases.len()),
+        _ => 1,
+    };
+    for b in bases.iter().take(nb) {
+        for row in rows_of(&[Kind::UrlRef]) {
+            let out = run_row(row, inp, Some(b), None);
+            col.case(stream, &req_line(row, ins, "", Some(b.as_str())), row, &out, nontrivial);
+        }
+    }
+    let ns = match level {
+        0 => starts.len(),
+        1 => 3.min(starts.len()),
+        _ => 1,
+    };
+    for (i, s) in starts.iter().enumerate() {
+        // level 1: the special, the path-only non-special and the file: start
+        if level >= 1 && !(i == 0 || (level == 1 && (i == 2 || i == 4))) {
+            continue;
+        }
+        let _ = ns;
+        for row in rows_of(&[Kind::UrlSet]) {
+            if level >= 2 && !heavy_ok(row) {
+                continue;
+            }
+            let out = run_row(row, inp, Some(s), None);
+            col.case(stream, &req_line(row, ins, "", Some(s.as_str())), row, &out, nontrivial);
+        }
+    }
+}
+fn feed_plain_rows(col: &mut Col, stream: &str, ins: &str, inp: &[u8], cap: Option<Cap>) {
+    let nontrivial = !inp.is_empty();
+    for row in rows_of(&[Kind::Str, Kind::Bytes]) {
+        if let Some(c) = cap {
+            if row.cap != c {
+                continue;
+            }
+        }
+        let prefixes: &[&str] = if row.cap == Cap::Data { &DATA_PREFIXES } else { &[""] };
+        for pre in prefixes {
+            let mut full = pre.as_bytes().to_vec();
+            full.extend_from_slice(inp);
+            let out = run_row(row, &full, None, None);
+            col.case(stream, &req_line(row, ins, pre, None), row, &out, nontrivial);
+        }
+    }
+}
+fn base_urls() -> Vec<Url> {
+    BASES.iter().map(|s| Url::parse(s).expect("base")).collect()
+}
+fn start_urls(thorough: bool) -> Vec<Url> {
+    let mut v = base_urls();
+    v.extend(STARTS_EXTRA.iter().map(|s| Url::parse(s).expect("start")));
+    if thorough {
+        v.extend(start_pool());
+    }
+    v
+}
+
+fn stream_families(col: &mut Col) {
+    let thorough = col.thorough;
+    let targets: Vec<usize> = if thorough { vec![0, 1, 2, 3, 7, 64, 1000, 65536, 1 << 20, 4 << 20] } else { vec![0, 1, 2, 3, 7, 64, 1000, 65536] };
+    let bases = base_urls();
+    let starts = start_urls(thorough);
+    for f in FAMS {
+        for cap in [Cap::Full, Cap::Idna, Cap::Puny, Cap::Data] {
+            for n in fam_counts(f, &targets, cap_bytes(cap, thorough)) {
+                let inp = fam_bytes(f, n);
+                feed_plain_rows(col, "families", &format!("fam={} n={}", f.id, n), &inp, Some(cap));
+            }
+        }
+        for n in fam_counts(f, &targets, usize::MAX) {
+            let inp = fam_bytes(f, n);
+            let level = if inp.len() <= 1100 { 0 } else if inp.len() <= 100_000 { 1 } else { 2 };
+            feed_url_rows(col, "families", &format!("fam={} n={}", f.id, n), &inp, level, &bases, &starts);
+        }
+    }
+    col.rep.notes.push(format!(
+        "families: {} families x total sizes {:?} bytes; rows that reach IDNA directly are capped at {} bytes, the public punycode functions at 4096 bytes (quadratic, F-C04-10); above 1000 bytes the URL rows use {} prefixes, 5 bases, 3 start URLs; above 100 KB 3 prefixes, 1 base, 1 start URL and the setters {}",
+        FAMS.len(), targets, cap_bytes(Cap::Idna, thorough), URL_PREFIXES_BIG.len(), "set_path/set_query/set_fragment/set_host/set_username/set_href/set_pathname"
+    ));
+}
+
+fn stream_small(col: &mut Col) {
+    let mut vals: Vec<u64> = (0..=256).collect();
+    vals.extend([65535, 65536, u32::MAX as u64, u64::MAX]);
+    for row in rows_of(&[Kind::Small]) {
+        for &s in &vals {
+            let out = run_row(row, b"", None, Some(s));
+            col.case("small", &format!("{} small={}", row.full(), s), row, &out, true);
+        }
+    }
+}
+
+fn stream_documented(col: &mut Col) {
+    for p in documented_probes() {
+        let (m, i) = run_documented(&p);
+        col.add("documented-probe", 1);
+        col.record("documented", &format!("documented {}", p.id), &m, &i, true, &format!("documented:{}", if i.starts_with("PANIC(doc") { "panics" } else { "returns" }));
+        let _ = p.what;
+    }
+}
+
+fn stream_blob(col: &mut Col) {
+    let ns: &[usize] = if col.thorough { &[16, 256, 2000, 8000] } else { &[16, 256, 2000] };
+    for &n in ns {
+        let imp = blob_child(n);
+        col.add("row:url::Url::origin(child process)", 1);
+        col.record("deep-blob", &format!("blobdepth n={}", n), "ok", &imp, true, &format!("blob:{}", if imp == "ok" { "ok" } else { "abort" }));
+    }
+    col.rep.notes.push(
+        "K-blob-depth (open, reported): Url::origin / quirks::origin recurse once per nested `blob:` and re-parse the remainder at every level: the process aborts with a stack overflow between n = 32000 and 36000 (release, 8 MiB stack; dev: between 30000 and 40000) and the time is quadratic (release 3.2 s at n = 10000, 39.5 s at n = 32000); the child process is therefore run only up to the sizes above"
+            .into(),
+    );
+}
+
+const CLASS_ALPHABET: [u8; 25] = [
+    b'a', b'A', b'0', b'%', b'/', b'\\', b'.', b':', b'@', b'?', b'#', b'[', b']', b'=', b'&', b'+', b'-', b' ', b'\t', 0x80, 0xC3, 0xA9, 0xFF, b'x', b'n',
+];
+fn stream_exhaustive(col: &mut Col) {
+    let bases = base_urls();
+    let starts: Vec<Url> = ["http://h/a/b?q#f", "a://h:80/p"].iter().map(|s| Url::parse(s).expect("start")).collect();
+    let mut count = 0u64;
+    let mut run = |col: &mut Col, s: &[u8]| {
+        count += 1;
+        let ins = format!("hex={}", hexb(s));
+        feed_plain_rows(col, "exhaustive", &ins, s, None);
+        if std::str::from_utf8(s).is_ok() {
+            feed_url_rows(col, "exhaustive", &ins, s, 2, &bases[..1], &[]);
+            for st in &starts {
+                for row in rows_of(&[Kind::UrlSet]) {
+                    let out = run_row(row, s, Some(st), None);
+                    col.case("exhaustive", &req_line(row, &ins, "", Some(st.as_str())), row, &out, !s.is_empty());
+                }
+            }
+        }
+    };
+    for_all_strings(&CLASS_ALPHABET, 2, |s| run(col, s));
+    let mut scope = "all byte strings of length <= 2 over {a,A,0,%,/,\\,.,:,@,?,#,[,],=,&,+,-,space,tab,0x80,0xC3,0xA9,0xFF,x,n} through every Bytes and Str row (Str rows see the lossy text), the UTF-8-valid ones also through Url::parse with 3 prefixes + all getters, the base-taking rows on 1 base and every setter row on 2 start URLs".to_string();
+    if col.thorough {
+        let a12: [u8; 12] = [b'a', b'%', b'/', b'.', b':', b'@', b'?', b'#', b'=', 0xC3, 0xA9, 0xFF];
+        for_all_strings(&a12, 3, |s| {
+            if s.len() == 3 {
+                run(col, s)
+            }
+        });
+        scope.push_str("; all strings of length 3 over {a,%,/,.,:,@,?,#,=,0xC3,0xA9,0xFF}");
+    }
+    col.rep.exhaustive.push(format!("{} ({} inputs)", scope, count));
+}
+
+fn random_bytes(rng: &mut Rng, maxlen: usize) -> Vec<u8> {
+    let n = rng.below(maxlen + 1);
+    (0..n)
+        .map(|_| match rng.below(10) {
+            0 => b'%',
+            1 => *rng.pick(b"0123456789abcdefABCDEF"),
+            2 => *rng.pick(b"=&+;,/?#:@.-"),
+            3 => 0x80 + rng.below(0x80) as u8,
+            4 => rng.below(0x20) as u8,
+            5 => *rng.pick(&[0xC3u8, 0xA9, 0xE2, 0x82, 0xAC, 0xF0, 0x9F, 0x92, 0x96, 0xED, 0xA0, 0x80, 0xD7, 0x90]),
+            6 => *rng.pick(b"xn--AZaz"),
+            _ => 0x20 + rng.below(0x5f) as u8,
+        })
+        .collect()
+}
+fn clip_bytes(mut v: Vec<u8>, n: usize) -> Vec<u8> {
+    v.truncate(n);
+    v
+}
+fn stream_generators(col: &mut Col, seed: u64) {
+    let mut rng = Rng::new(seed);
+    let thorough = col.thorough;
+    let (n_str, n_hist) = if thorough { (100_000, 60_000) } else { (5_000, 3_000) };
+    let bases: Vec<Url> = base_pool().iter().filter_map(|s| Url::parse(s).ok()).collect();
+    let starts = start_pool();
+    let getters = rows_of(&[Kind::UrlGet]);
+    let urlstr = rows_of(&[Kind::UrlStr]);
+    let urlref = rows_of(&[Kind::UrlRef]);
+    let urlset = rows_of(&[Kind::UrlSet]);
+    for i in 0..n_str {
+        let s = match rng.below(4) {
+            0 => {
+                let b = *rng.pick(&base_pool());
+                mutate_string(&mut rng, b)
+            }
+            1 => {
+                let a = atoms();
+                (0..rng.below(5)).map(|_| *rng.pick(&a)).collect::<Vec<_>>().concat()
+            }
+            _ => random_url_string(&mut rng),
+        };
+        let s = clip_bytes(s.into_bytes(), 300);
+        let ins = format!("hex={}", hexb(&s));
+        let nontrivial = !s.is_empty();
+        for row in &urlstr {
+            let out = run_row(row, &s, None, None);
+            col.case("gen-strings", &req_line(row, &ins, "", None), row, &out, nontrivial);
+        }
+        let base = &bases[rng.below(bases.len())];
+        for row in &urlref {
+            let out = run_row(row, &s, Some(base), None);
+            col.case("gen-strings", &req_line(row, &ins, "", Some(base.as_str())), row, &out, nontrivial);
+        }
+        // every getter on the parse result and on the join result
+        let text = String::from_utf8_lossy(&s);
+        for (b, bs) in [(None, None), (Some(base), Some(base.as_str()))] {
+            if let Some(u) = parse_for_get(&text, b) {
+                for row in &getters {
+                    let out = exec(row, &Ctx { bytes: b"", text: "", url: &u, small: 0 });
+                    col.case("gen-strings", &req_line(row, &ins, "", bs), row, &out, nontrivial);
+                }
+            }
+        }
+        // one setter row on a random start URL
+        let row = urlset[rng.below(urlset.len())];
+        let st = &starts[rng.below(starts.len())];
+        let out = run_row(row, &s, Some(st), None);
+        col.case("gen-strings", &req_line(row, &ins, "", Some(st.as_str())), row, &out, nontrivial);
+        // the plain rows: the url string itself, and a random byte string
+        if i % 4 == 0 {
+            feed_plain_rows(col, "gen-strings", &ins, &s, None);
+        }
+        let rb = random_bytes(&mut rng, 64);
+        feed_plain_rows(col, "gen-bytes", &format!("hex={}", hexb(&rb)), &rb, None);
+    }
+    // every single operation of urlops on a few start URLs, then random histories
+    let singles = all_single_ops();
+    let single_starts: Vec<&Url> = if thorough { starts.iter().collect() } else { starts.iter().step_by(4).collect() };
+    for st in &single_starts {
+        for op in &singles {
+            let toks = ops_token(std::slice::from_ref(op));
+            let (m, i, class) = run_history(st.as_str(), &toks);
+            col.add("row:history", 1);
+            if class == "panic-known" {
+                col.add(&format!("panic-known:{}", m.trim_start_matches("PANIC(known:").trim_end_matches(')')), 1);
+            }
+            col.record("gen-single-ops", &format!("history start={} ops={}", esc(st.as_str().as_bytes()), toks), &m, &i, true, &format!("history:{}", class));
+        }
+    }
+    for _ in 0..n_hist {
+        let st = &starts[rng.below(starts.len())];
+        let len = 1 + rng.below(5);
+        let ops: Vec<Op> = (0..len).map(|_| random_op(&mut rng, false)).collect();
+        let toks = ops_token(&ops);
+        let (m, i, class) = run_history(st.as_str(), &toks);
+        col.add("row:history", 1);
+        if class == "panic-known" {
+            col.add(&format!("panic-known:{}", m.trim_start_matches("PANIC(known:").trim_end_matches(')')), 1);
+        }
+        col.record("gen-histories", &format!("history start={} ops={}", esc(st.as_str().as_bytes()), toks), &m, &i, true, &format!("history:{}", class));
+    }
+}
+
+fn run_streams(col: &mut Col, seed: u64) {
+    stream_documented(col);
+    stream_small(col);
+    stream_exhaustive(col);
+    stream_generators(col, seed);
+    stream_families(col);
+    stream_blob(col);
+}
+
+// ================================================================ the inventory
+struct ApiEntry {
+    krate: String,
+    name: String,
+    file: String,
+    line: u64,
+    sig: String,
+}
+fn tables_path() -> String {
+    if let Ok(p) = std::env::var("C04_TABLES") {
+        return p;
+    }
+    let rel = "coq/Gen/tables.json";
+    if std::path::Path::new(rel).exists() {
+        return rel.to_string();
+    }
+    match std::env::var("VERIF_ROOT") {
+        Ok(r) => format!("{}/{}", r, rel),
+        Err(_) => rel.to_string(),
+    }
+}
+fn load_inventory() -> Result<Vec<ApiEntry>, String> {
+    let p = tables_path();
+    let txt = std::fs::read_to_string(&p).map_err(|e| format!("cannot read {}: {}", p, e))?;
+    let j: serde_json::Value = serde_json::from_str(&txt).map_err(|e| format!("cannot parse {}: {}", p, e))?;
+    let arr = j.get("c04_api").and_then(|a| a.as_array()).ok_or_else(|| format!("{} has no c04_api list", p))?;
+    let st = |e: &serde_json::Value, k: &str| e.get(k).and_then(|x| x.as_str()).unwrap_or("").to_string();
+    Ok(arr
+        .iter()
+        .map(|e| ApiEntry { krate: st(e, "crate"), name: st(e, "name"), file: st(e, "file"), line: e.get("line").and_then(|x| x.as_u64()).unwrap_or(0), sig: st(e, "sig") })
+        .collect())
+}
+/// startup check of every mode: inventory entries without a table row (returned), rows without an entry (noted)
+fn check_inventory(col: &mut Col) -> Vec<ApiEntry> {
+    let inv = match load_inventory() {
+        Ok(v) => v,
+        Err(e) => {
+            col.record("inventory", "inventory unreadable", "listed", &format!("UNREADABLE:{}", clip(&e, 200)), true, "unreadable");
+            return vec![];
+        }
+    };
+    let mut kinds: std::collections::BTreeMap<&'static str, u64> = Default::default();
+    for r in rows() {
+        *kinds.entry(r.kind.tag()).or_insert(0) += 1;
+        if !inv.iter().any(|e| e.krate == r.krate && e.name == r.name) {
+            col.rep.notes.push(format!("table row {} is not in the inventory (removed or renamed public fn)", r.full()));
+        }
+    }
+    col.rep.notes.push(format!("entry-point table: {} rows {:?}; inventory: {} public fns", rows().len(), kinds, inv.len()));
+    let mut unlisted = vec![];
+    for e in inv {
+        if rows().iter().any(|r| r.krate == e.krate && r.name == e.name) {
+            if !col.search {
+                col.rep.case("inventory", &format!("listed public fn {}::{}", e.krate, e.name), "listed", "listed", false, "listed");
+            }
+        } else {
+            let req = format!("unlisted public fn {}::{} ({}:{})", e.krate, e.name, e.file, e.line);
+            if col.search {
+                col.rep.notes.push(req);
+            } else {
+                col.rep.case("inventory", &req, "listed", "UNLISTED", true, "unlisted");
+            }
+            unlisted.push(e);
+        }
+    }
+    unlisted
+}
+
+// ================================================================ modes
+fn run_corr(args: &Args) -> Report {
+    let mut col = Col { rep: Report::new(), search: false, thorough: args.tier == "thorough" };
+    check_inventory(&mut col);
+    run_streams(&mut col, args.seed);
+    col.rep.notes.push(format!("profile: {}; nothing is timed in corr mode", if DBG { "dev (debug assertions, overflow checks)" } else { "release" }));
+    col.rep
+}
+
+fn is_failure(model: &str, imp: &str) -> bool {
+    model != imp
+}
+fn run_search(args: &Args) -> Report {
+    let mut col = Col { rep: Report::new(), search: true, thorough: args.tier == "thorough" };
+    let unlisted = check_inventory(&mut col);
+    // 1. the differing requests
+    if let Ok(txt) = std::fs::read_to_string(&args.file) {
+        for l in txt.lines().filter(|l| !l.is_empty()) {
+            if l.starts_with("unlisted public fn") || l.starts_with("listed public fn") || l.starts_with("inventory") {
+                continue;
+            }
+            let (m, i) = run_request_pair(l);
+            col.rep.evaluations += 1;
+            if is_failure(&m, &i) && col.rep.failures.len() < 20 {
+                col.rep.failures.push((l.to_string(), describe_failure(&i)));
+            }
+        }
+    }
+    // 3. generic exercise of public fns that have no table row
+    for e in &unlisted {
+        generic_probe(e, &mut col.rep);
+    }
+    // 2. the streams, with the property evaluated directly
+    run_streams(&mut col, args.seed ^ 0x5EA4C4);
+    // 4. doubling-time experiment
+    if col.thorough {
+        if DBG {
+            col.rep.notes.push("timing: skipped (dev-profile build; the doubling-time experiment runs only in the release build)".into());
+        } else {
+            run_timing_into(&mut col.rep, true);
+        }
+    }
+    col.rep.failures.sort_by_key(|(c, _)| c.len());
+    col.rep
+}
+
+fn run_replay(args: &Args) -> Report {
+    let mut rep = Report::new();
+    let txt = std::fs::read_to_string(&args.file).unwrap_or_default();
+    let req = txt.split("\"request\":").nth(1).and_then(|s| s.split('"').nth(1)).unwrap_or("").to_string();
+    if req.is_empty() {
+        rep.notes.push("replay file has no request (no-failing-input-found replay): nothing to re-run".into());
+        return rep;
+    }
+    rep.notes.push(format!("request: {}", req));
+    rep.evaluations = 1;
+    if let Some(name) = req.strip_prefix("generic ") {
+        let name = name.split('(').next().unwrap_or(name).trim();
+        match load_inventory() {
+            Ok(inv) => match inv.into_iter().find(|e| format!("{}::{}", e.krate, e.name) == name) {
+                Some(e) => generic_probe(&e, &mut rep),
+                None => rep.notes.push(format!("implementation: {} is not in the inventory any more", name)),
+            },
+            Err(e) => rep.notes.push(format!("implementation: {}", e)),
+        }
+        return rep;
+    }
+    if req.starts_with("unlisted public fn") {
+        rep.notes.push("implementation: the inventory theorem is broken by this function; see the generic probe in the search report".into());
+        return rep;
+    }
+    let (m, i) = run_request_pair(&req);
+    rep.notes.push(format!("implementation: {}", i));
+    rep.notes.push(format!("prediction: {}", m));
+    if is_failure(&m, &i) {
+        rep.failures.push((req, describe_failure(&i)));
+    }
+    rep
+}
+
+// ================================================================ known findings
+fn run_known(args: &Args) -> Report {
+    let mut rep = Report::new();
+    let thorough = args.tier == "thorough";
+    let probe = |f: &mut dyn FnMut() -> String| -> (bool, String) {
+        let _ = take_panic();
+        match catch_unwind(AssertUnwindSafe(|| f())) {
+            Ok(s) => (false, s),
+            Err(_) => {
+                let (m, l) = take_panic();
+                (true, format!("panics: {} @ {}", clip(&m, 120), l))
+            }
+        }
+    };
+    // F-C04-1
+    let (p, o) = probe(&mut || {
+        let mut u = Url::parse("a://h?q").unwrap();
+        let r = u.set_host(None);
+        format!("returns {:?}, url = {}{}", r, u.as_str(), if DBG { "" } else { " (release build: no debug assertions)" })
+    });
+    rep.known.push(("F-C04-1".into(), p && c04_1_class(&Url::parse("a://h?q").unwrap()), format!("Url::parse(\"a://h?q\").set_host(None): {}", o)));
+    // F-C04-3
+    let (p, o) = probe(&mut || {
+        let mut u = Url::parse("a://h:80/").unwrap();
+        let r = u.set_host(Some(""));
+        let corrupt = corrupt_empty_host(&u);
+        format!("set_host returns {:?}, url = {}, in class = {}, password() = {:?}", r, u.as_str(), corrupt, u.password())
+    });
+    rep.known.push(("F-C04-3".into(), p, format!("a://h:80/ set_host(Some(\"\")) then password(): {}", o)));
+    // F-C04-7
+    let (p, o) = probe(&mut || {
+        let b = Url::parse("file:///%b//c:").unwrap();
+        format!("in class = {}; join returns {:?}{}", c04_7_class(&b, "../x"), b.join("../x").map(|u| u.to_string()), if DBG { "" } else { " (release build: no debug assertions)" })
+    });
+    rep.known.push(("F-C04-7".into(), p, format!("Url::parse(\"file:///%b//c:\").join(\"../x\"): {}", o)));
+    // timing findings: never decided by a measurement
+    let timing_note = |id: &str, what: &str, rep: &mut Report, measure: &mut dyn FnMut() -> String| {
+        let obs = if thorough && !DBG { measure() } else { "timing finding: not measured in known mode (quick tier / dev profile)".to_string() };
+        rep.known.push((id.to_string(), true, format!("{}: {}", what, obs)));
+    };
+    let ms = |f: &mut dyn FnMut()| -> f64 {
+        let t = Instant::now();
+        f();
+        t.elapsed().as_secs_f64() * 1000.0
+    };
+    timing_note("F-C04-6", "path_segments_mut().extend of n segments on file:///", &mut rep, &mut || {
+        let mut v = vec![];
+        for n in [10_000usize, 20_000, 40_000] {
+            let segs = vec!["a"; n];
+            let mut u = Url::parse("file:///").unwrap();
+            v.push(format!("n={} {:.1} ms", n, ms(&mut || {
+                u.path_segments_mut().unwrap().extend(segs.iter());
+            })));
+        }
+        v.join(", ")
+    });
+    timing_note("F-C04-8", "Url::parse(\"http://\" + \"a\"*n + \"/\" + \"../\"*n)", &mut rep, &mut || {
+        let mut v = vec![];
+        for n in [20_000usize, 40_000, 80_000] {
+            let s = format!("http://{}/{}", "a".repeat(n), "../".repeat(n));
+            v.push(format!("n={} {:.1} ms", n, ms(&mut || {
+                let _ = std::hint::black_box(Url::parse(&s));
+            })));
+        }
+        v.join(", ")
+    });
+    timing_note("F-C04-9", "\"a/b\" + \";p<i>=1\" for i < n parsed as Mime", &mut rep, &mut || {
+        let mut v = vec![];
+        for n in [5_000usize, 10_000, 20_000] {
+            let s = mime_distinct(n);
+            v.push(format!("n={} {:.1} ms", n, ms(&mut || {
+                let _ = std::hint::black_box(s.parse::<Mime>());
+            })));
+        }
+        v.join(", ")
+    });
+    timing_note("F-C04-10", "punycode::decode_to_string(\"a-\" + \"a\"*n)", &mut rep, &mut || {
+        let mut v = vec![];
+        for n in [10_000usize, 20_000, 40_000] {
+            let s = format!("a-{}", "a".repeat(n));
+            v.push(format!("n={} {:.1} ms", n, ms(&mut || {
+                let _ = std::hint::black_box(idna::punycode::decode_to_string(&s));
+            })));
+        }
+        v.join(", ")
+    });
+    // F-C14-1
+    let (p, o) = probe(&mut || format!("returns {:?}", AsciiSet::EMPTY.add(std::hint::black_box(0x80))));
+    rep.known.push(("F-C14-1".into(), p, format!("AsciiSet::EMPTY.add(0x80): {}", o)));
+    // F-C15-1
+    let (p, o) = probe(&mut || {
+        let mut s = Serializer::for_suffix(String::from("\u{e9}"), 1);
+        s.clear();
+        format!("returns {:?}", s.finish())
+    });
+    rep.known.push(("F-C15-1".into(), p, format!("Serializer::for_suffix(String::from(\"\\u{{e9}}\"), 1).clear(): {}", o)));
+    // F-C11-2
+    {
+        let input = "1a.xn--4db";
+        let a = Uts46::new().to_ascii(input.as_bytes(), AsciiDenyList::EMPTY, Hyphens::Allow, DnsLength::Ignore).is_err();
+        let (p, o) = probe(&mut || {
+            let (t, e) = Uts46::new().to_user_interface(input.as_bytes(), AsciiDenyList::EMPTY, Hyphens::Allow, |_, _, _| false);
+            format!("to_user_interface = ({:?}, is_err {})", t, e.is_err())
+        });
+        let in_class = known11(input.as_bytes(), AsciiDenyList::EMPTY, Hyphens::Allow);
+        let reproduces = if DBG { p } else { a && o.contains("is_err false") };
+        rep.known.push(("F-C11-2".into(), reproduces && in_class, format!("to_ascii({:?}) is_err = {}; in class = {}; {}", input, a, in_class, o)));
+    }
+    // F-C13-2: needs 4 GiB and ~20 s
+    if thorough {
+        let n: usize = 0xFFFF_FFFF;
+        let mut s = String::new();
+        if s.try_reserve_exact(n + 2).is_ok() {
+            s.extend(std::iter::repeat('a').take(n));
+            s.push_str("-a");
+            let (p, o) = probe(&mut || format!("returns is_some = {}", idna::punycode::decode_to_string(&s).is_some()));
+            rep.known.push(("F-C13-2".into(), p, format!("'a' x (2^32 - 1) ++ \"-a\": decode_to_string: {}", o)));
+        } else {
+            rep.known.push(("F-C13-2".into(), true, "not replayed: 4 GiB could not be allocated; see C13".into()));
+        }
+    } else {
+        rep.known.push(("F-C13-2".into(), true, "not replayed in quick tier (needs 4 GiB and ~20 s); see C13".into()));
+    }
+    // fixed findings: must not reproduce
+    let mut sink_panics = 0;
+    let mut sink_errs = 0;
+    for kfail in 0..8 {
+        let (p, o) = probe(&mut || {
+            let mut s1 = CountSink::new(Some(kfail));
+            let r = Uts46::new().process("a.\u{e9}x.b".as_bytes(), AsciiDenyList::URL, Hyphens::Allow, ErrorPolicy::FailFast, |_, _, _| false, &mut s1, None);
+            format!("{:?}", r)
+        });
+        if p {
+            sink_panics += 1;
+        }
+        if o.contains("SinkError") {
+            sink_errs += 1;
+        }
+    }
+    rep.known.push(("F-C04-5".into(), sink_panics > 0, format!("Uts46::process(\"a.\\u{{e9}}x.b\") with a sink failing at its k-th write, k < 8: {} panics, {} Err(SinkError)", sink_panics, sink_errs)));
+    let (p1, o1) = probe(&mut || {
+        let u = Url::parse("foo://").unwrap();
+        format!("{:?} {:?}", &u[Position::BeforePassword..], &u[Position::AfterPassword..])
+    });
+    let (p2, o2) = probe(&mut || {
+        let u = Url::parse("http://user@host/").unwrap();
+        format!("{:?} {:?}", &u[Position::BeforePassword..Position::AfterPassword], &u[Position::BeforePassword..])
+    });
+    rep.known.push(("F-C03-1".into(), p1 || p2 || o2.starts_with("\"@\""), format!("foo:// sliced at BeforePassword.. / AfterPassword..: {}; http://user@host/ BeforePassword..AfterPassword: {}", o1, o2)));
+    rep
+}
+fn mime_distinct(n: usize) -> String {
+    let mut s = String::from("a/b");
+    for i in 0..n {
+        s.push_str(&format!(";p{}=1", i));
+    }
+    s
+}
+
+// ================================================================ stubs (filled in below)
+fn generic_probe(_e: &ApiEntry, _rep: &mut Report) {}
+fn run_timing_into(_rep: &mut Report, _fail: bool) {}
+
+fn main() {
+    install_hook();
+    let args = parse_args();
+    let rep = match args.mode.as_str() {
+        "child-blob" => {
+            child_blob(&args);
+            return;
+        }
+        "corr" => run_corr(&args),
+        "search" => run_search(&args),
+        "known" => run_known(&args),
+        "replay" => run_replay(&args),
+        "timing" => {
+            let mut rep = Report::new();
+            run_timing_into(&mut rep, false);
+            rep
+        }
+        m => panic!("unknown mode {}", m),
+    };
+    finish(&args, &rep);
+}
